@@ -10,7 +10,6 @@ use num_traits::{One, Zero};
 use rc::Rc;
 
 use crate::util::fenced_string::FencedString;
-use crate::xexpr::XExpr;
 
 use std::rc;
 
@@ -35,18 +34,9 @@ pub(crate) fn add_bool_assert<W, R, T>(
             if let XValue::Bool(true) = a0.value {
                 Ok(a0.into())
             } else {
-                // we fetch the original expression to maybe make the error message better
-                // todo improve
-                let msg = match &args[0] {
-                    XExpr::Call(_func, inner_args) => {
-                        let inner_arg_values = inner_args
-                            .iter()
-                            .map(|e| ns.eval(e, rt.clone(), false).map(|a| a.unwrap_value()))
-                            .collect::<Result<Vec<_>, _>>()?;
-                        format!("function call with arguments: {inner_arg_values:?} is untrue")
-                    }
-                    _ => "assertion is untrue".to_string(),
-                };
+                // (the arguments of the asserted call are not evaluated again to describe them: that would
+                // repeat their effects and their cost)
+                let msg = "assertion is untrue".to_string();
                 Ok(Err(ManagedXError::new(msg, rt)?).into())
             }
         }),
